@@ -12,6 +12,10 @@ CHECKS = {
                 technique="explicit-state total enumeration (small groups) + boundary-alphabet product, lock-step reference model",
                 text="Total enumeration of ECDSA verify over every (r,s,m,key) and of sign over every (key,msg,nonce,callback-failure point) in the order-13 (thorough: 7, 199) builds of the same source, plus the full product of boundary alphabets and algebraically constructed triples (R.x>=n, r around p-n, s at the half-order boundary, messages >= n) on secp256k1 for several build configurations; every case is executed on the real code and on an integer-arithmetic model.",
                 note="secp256k1 scalars outside the alphabets are not explored (the small groups are explored totally); trusted: the Python big-integer model (self-tested against RFC 6979 / curve vectors), gcc 12 / clang 14."),
+    "C02": dict(level=MC, design="§4 C02",
+                technique="boundary-alphabet product + single-mutation enumeration + total small-group enumeration, lock-step BIP-340 reference",
+                text="Every message length 0..300 (and 11 longer lengths up to 10^5), the KEY alphabet closed under negation, all aux variants and both entry points are signed by the real code and byte-compared with the BIP-340 reference; every single-bit flip, every boundary scalar substituted for r and s, odd-y and infinity constructions are decided by the reference verifier; in the order-13 build every (r, s+kN) for every key and message is enumerated, which decides rejection of s >= n for valid signatures.",
+                note="r+p re-encodings of a valid signature are not constructible in any supported group; secp256k1 scalars outside the alphabets are not explored. Trusted: Python model (hashlib SHA-256, big-int group law)."),
 }
 
 NOT_YET = "check not built yet in this round (work in progress; see DESIGN.md section 4 for the planned exploration)"
